@@ -1,10 +1,32 @@
-#!/bin/sh
-# usage: run_seed.sh <patch> <PROP> [more props]   -- apply to /repo, run checks, revert
-patch="$1"; shift
-git -C /repo apply "$patch" || { echo "APPLY FAILED"; exit 9; }
-for p in "$@"; do
-  ./check "$p" quick --no-evidence 2>&1 | grep -v "^  symexec\|^  attempt\|^  solved" | tail -12
-  echo "exit($p)=$?"
-done
-git -C /repo checkout -- .
-git -C /repo status --short | head -3
+#!/bin/bash
+# usage: run_seed.sh <seed dir> [tier]   -- apply the seed's patch to a scratch copy of /repo's working tree,
+# run the property's check against it (--repo), store the outcome in <seed dir>/result.json, remove the copy.
+d=$(realpath "${1%/}"); tier="${2:-quick}"
+prop=$(python3 -c "import json,sys; print(json.load(open('$d/meta.json'))['property'])")
+w=$(mktemp -d /tmp/pyvc_seed.XXXXXX)
+git -C /repo worktree add --detach "$w/wt" HEAD -q || exit 9
+( cd "$w/wt" && git apply "$d/patch.diff" ) || { echo "APPLY FAILED"; git -C /repo worktree remove --force "$w/wt"; rm -rf "$w"; exit 9; }
+cd /verif
+t0=$(date +%s)
+./check "$prop" "$tier" --no-evidence --repo "$w/wt" > "$w/out.log" 2>&1
+rc=$?
+t1=$(date +%s)
+grep -E "^(VIOLATION|UNDECIDED|CRASH|KNOWN-FINDING|$prop )" "$w/out.log" | head -12
+python3 - "$d" "$prop" "$tier" "$rc" "$((t1-t0))" "$w/out.log" <<'PY'
+import json, sys, re
+d, prop, tier, rc, secs, log = sys.argv[1:7]
+lines = open(log).read().splitlines()
+viol = [l for l in lines if l.startswith("VIOLATION")]
+obl = []
+for v in viol:
+    m = re.search(r"replay=(\S+)", v)
+    try:
+        r = json.load(open(m.group(1)))
+        obl.append(dict(obligation=r.get("obligation"), replayed=bool((r.get("replayed") or {}).get("reproduced"))))
+    except Exception:
+        pass
+json.dump(dict(property=prop, tier=tier, exit=int(rc), seconds=int(secs), detected=int(rc) == 1, violations=obl[:8],
+               summary=next((l for l in lines if l.startswith(prop + " ")), "")), open(d + "/result.json", "w"), indent=1)
+PY
+echo "exit=$rc"
+git -C /repo worktree remove --force "$w/wt"; rm -rf "$w"
